@@ -12,10 +12,20 @@ def run(prop, tier, seed, only=None):
     d = libcheck.trace_dir(prop)
     jobs = [(n, ["-m", "harness.lib.pure_drive", n, tier, str(seed)], os.path.join(d, f"pure-{n}-{tier}-{seed}.ndjson"))
             for n in names]
+    # second part: plain-Python replay of EVENTFUL transitions reached by the adapters' directed policies
+    from harness import envcheck
+
+    alias = {"LBF": "LevelBasedForaging", "SlidingTile": "SlidingTilePuzzle"}
+    for ad in envcheck.load_adapters():
+        if only and ad.name not in only and alias.get(ad.name, ad.name) not in only:
+            continue
+        jobs.append((f"events-{ad.name}", ["-m", "harness.lib.pure_events", ad._mod, tier, str(seed)],
+                     os.path.join(d, f"pure-events-{ad.name}-{tier}-{seed}.ndjson")))
     mcs = [("MC_PureFn", "MC_PureFn_quick.cfg", 600)]
     return libcheck.run_lib(
         prop, tier, seed, jobs, "Trace_PureFn", mcs,
         assumptions=["results of calls with bit-identical arguments are classed by exact equality on ints/bools/keys and "
                      "2e-5 relative tolerance on floats (XLA may fuse reductions differently under jit/vmap/scan)",
-                     "keys and visited (state, action) pairs are sampled; eager execution is limited to a few calls"],
+                     "keys and visited (state, action) pairs are sampled; eager execution is limited to a few calls per environment: the "
+                     "first states of a rollout and the most eventful transitions of episodes played by the adapters' policies"],
         distinct_key=lambda e: [e.get("k"), e.get("fn"), e.get("mode"), e.get("args_d"), e.get("note")])
